@@ -251,6 +251,26 @@ def run_cli(shard, ctx):
         cr = cli_runs.fasta_case(rng, scratch / f"c{i}", tagged=(i % 2 == 1))
         try:
             check_cli_case(cr, ctx)
+            if i % 3 == 1:
+                # the FASTA is given through a symbolic link which is then re-pointed to another file
+                d = cr["dir"]
+                recs = fasta_ref.parse(cr["fasta_bytes"])
+                w = rng.choice([13, 29, 44])
+                v1 = b"".join(b">" + r["name"].encode() + b"\n" + b"\n".join(r["seq"].swapcase()[k : k + w] for k in range(0, len(r["seq"]), w)) + b"\n" for r in recs)
+                (d / "v1.fa").write_bytes(v1)
+                t_old = (d / "input.fa").stat().st_mtime - 5000
+                os.utime(d / "v1.fa", (t_old, t_old))
+                link = d / "current.fa"
+                link.symlink_to(d / "input.fa")
+                cr2 = {**cr, "assembly_file": link}
+                cli_runs.clear_outputs(cr)
+                check_cli_case(cr2, ctx)
+                link.unlink()
+                link.symlink_to(d / "v1.fa")
+                cr2["fasta_bytes"] = v1
+                cli_runs.clear_outputs(cr)
+                ctx.count("cli:rerun-after-symlink-repointed")
+                check_cli_case(cr2, ctx)
             if i % 3 == 0 and rewrite_input_fasta(cr, rng):
                 cli_runs.clear_outputs(cr)
                 ctx.count("cli:rerun-after-fasta-rewritten-with-cache-mtime")
@@ -296,5 +316,6 @@ def gates(c, tier):
         "monitor_evals:write_scaffold": 3000,
         "cli:pairs-ok": 20,
         "cli:rerun-after-fasta-rewritten-with-cache-mtime": 10,
+        "cli:rerun-after-symlink-repointed": 10,
     }
     return [f"{k}>={v} (got {c.get(k, 0)})" for k, v in need.items() if c.get(k, 0) < v]
